@@ -7,7 +7,7 @@
  "replace_calls": {"assignexpr": "stub_assignexpr", "exprassign": "rec_exprassign"}, "replay": false,
  "link_repo": ["type.c"],
  "unwind": 5, "unwindset": ["typecompatible:2", "typecompatible.0:2"],
- "variants": {"A0P0": ["-DV_NA=0", "-DV_NP=0"], "A0P1": ["-DV_NA=0", "-DV_NP=1"], "A0P2": ["-DV_NA=0", "-DV_NP=2"], "A1P0": ["-DV_NA=1", "-DV_NP=0"], "A1P1": ["-DV_NA=1", "-DV_NP=1"], "A1P2": ["-DV_NA=1", "-DV_NP=2"], "A2P0": ["-DV_NA=2", "-DV_NP=0"], "A2P1": ["-DV_NA=2", "-DV_NP=1"], "A2P2": ["-DV_NA=2", "-DV_NP=2"], "A3P0": ["-DV_NA=3", "-DV_NP=0"], "A3P1": ["-DV_NA=3", "-DV_NP=1"], "A3P2": ["-DV_NA=3", "-DV_NP=2"]},
+ "variants": {"A0P0": ["-DV_NA=0", "-DV_NP=0"], "A0P1": ["-DV_NA=0", "-DV_NP=1"], "A1P0": ["-DV_NA=1", "-DV_NP=0"], "A1P1": ["-DV_NA=1", "-DV_NP=1"], "A1P2": ["-DV_NA=1", "-DV_NP=2"], "A2P1": ["-DV_NA=2", "-DV_NP=1"], "A2P2": ["-DV_NA=2", "-DV_NP=2"], "A3P1": ["-DV_NA=3", "-DV_NP=1"]},
  "canary_variant": "A2P1",
  "cflags": ["-DCHECK_MAIN"],
  "kind": "proof-const-unwind",
